@@ -11,11 +11,14 @@ use qmluic::typemap::TypeMap;
 
 pub struct C08 {
     tm: TypeMap,
+    /// a second type map built independently from the same inputs: its hash maps iterate in another order, so anything that
+    /// leaks the iteration order of a TYPE MAP container (not only of a per-document one) shows between the two
+    tm2: TypeMap,
 }
 
 impl C08 {
     pub fn new() -> Self {
-        C08 { tm: env::load_type_map_with(env::adversarial_classes()) }
+        C08 { tm: env::load_type_map_with(env::adversarial_classes()), tm2: env::load_type_map_with(env::adversarial_classes()) }
     }
 }
 
@@ -263,7 +266,7 @@ fn subset<'a>(rng: &mut Rng, xs: &[&'a str], min: usize, max: usize) -> Vec<&'a 
 /// group, several handlers in a map, several attached properties, many anonymous objects of one class).
 pub fn multiplicity_document(rng: &mut Rng) -> (String, &'static str) {
     let mut s = String::from("import qmluic.QtWidgets\n\nQWidget {\n    id: root\n    QCheckBox { id: c1 }\n    QCheckBox { id: c2 }\n    QSpinBox { id: sp }\n    QLineEdit { id: ed }\n");
-    let which = rng.below(8);
+    let which = rng.below(10);
     let label = match which {
         0 => {
             // palette: default roles on the palette itself, colour groups overriding some of them and setting others
@@ -339,6 +342,39 @@ pub fn multiplicity_document(rng: &mut Rng) -> (String, &'static str) {
             }
             s.push_str("    }\n");
             "attached"
+        }
+        8 => {
+            // the SAME attached property / several of them on one object, spelled through different attaching types (the
+            // declaring class QLayout and classes derived from it, also ones that are not the parent's class): whatever the
+            // tool makes of it — one value, an error — must not depend on the order in which a map hands the spellings out
+            let parent = *rng.pick(&["QVBoxLayout", "QHBoxLayout", "QGridLayout", "QFormLayout"]);
+            s.push_str(&format!("    {parent} {{\n        id: lay\n"));
+            for _ in 0..(2 + rng.below(3)) {
+                s.push_str("        QPushButton {");
+                for _ in 0..(2 + rng.below(3)) {
+                    let t = *rng.pick(&["QLayout", "QLayout", "QVBoxLayout", "QHBoxLayout", "QBoxLayout", "QGridLayout", "QFormLayout"]);
+                    let a = *rng.pick(&["alignment", "rowStretch", "columnStretch", "row", "column"]);
+                    let v = if a == "alignment" { "Qt.AlignRight".to_owned() } else { format!("{}", rng.below(3)) };
+                    s.push_str(&format!(" {t}.{a}: {v};"));
+                }
+                s.push_str(" }\n");
+            }
+            s.push_str("    }\n");
+            "attached-spellings"
+        }
+        9 => {
+            // classes the type map knows but the translator has no serialisation for, in every role (layout, child, root of a
+            // subtree, action-like): their diagnostics name a class — the text must be the same in every run and process
+            for _ in 0..(1 + rng.below(3)) {
+                match rng.below(5) {
+                    0 => s.push_str("    QWidget { QStackedLayout { QLabel { } } }\n"),
+                    1 => s.push_str("    QWidget { QGraphicsLinearLayout { } }\n"),
+                    2 => s.push_str("    QButtonGroup { id: bg }\n"),
+                    3 => s.push_str("    QGraphicsWidget { }\n"),
+                    _ => s.push_str("    QWidget { QBoxLayout { QLabel { } } }\n"),
+                }
+            }
+            "unsupported-classes"
         }
         5 => {
             // many anonymous objects of few classes, custom-looking ids, actions and menus: name generation and addaction order
@@ -437,7 +473,7 @@ impl Stream for C08 {
         for mode in Mode::all() {
             let mut first: Option<(Option<String>, Option<String>, Vec<(bool, usize, usize, String)>)> = None;
             for r in 0..runs {
-                let t = env::translate(&self.tm, src, "MyType", mode);
+                let t = env::translate(if r % 2 == 0 { &self.tm } else { &self.tm2 }, src, "MyType", mode);
                 let mut d: Vec<(bool, usize, usize, String)> =
                     t.diags.iter().map(|d| (d.is_error, d.start, d.end, d.message.clone())).collect();
                 d.sort();
